@@ -6,7 +6,7 @@ from typing import Dict, List, Optional, Set, Tuple
 
 from .core import AnalysisError, Report
 from .effects import Effects, FuncId
-from .prog import (ClassInfo, ModuleInfo, Program, bind_call, dotted, enclosing, func_params, guards_of, inline_locals,
+from .prog import (ClassInfo, ModuleInfo, Program, bind_call, bound_args, dotted, enclosing, func_params, guards_of, inline_locals,
                    local_assignments, parent, unparse, walk_no_nested)
 from .rules_alias import reaching_defs
 from .rules_flow import effects_engine
@@ -442,7 +442,7 @@ def rule_parallel_lists(ctx, rep: Report, rid="S1"):
     hc = prog.cls("InstantiationHelper")
     calls = [c for c in walk_no_nested(h) if isinstance(c, ast.Call) and unparse(c.func) == "self.instantiate"]
     for c in calls:
-        kw = {k.arg: unparse(k.value) for k in c.keywords}
+        kw = {k_: unparse(v_) for k_, v_ in bound_args(prog.method("InstantiationHelper", "instantiate"), c).items()}
         ok = kw.get("class_instantiations", "").endswith("parent.instantiations") and \
             (kw.get("method_instantiations") in ("[]",) or "instantiations" in kw.get("method_instantiations", ""))
         rep.add(rid, f"order:InstantiationHelper.multilevel_instantiation:{kw.get('method_instantiations')}", ok,
